@@ -21,7 +21,7 @@ RULE = (
     "one case = (kernel file, model or none, --fixed?, --ignore-unknown?, --lines?) run through the real CLI path; files: "
     "shipped examples/test kernels of the model's ISA and generated kernels (random mixes of corpus instruction lines, "
     "made-up mnemonics, zero-pressure instructions, repeated divide/sqrt for port sums >=10/>=100, 99/100/101/150-line "
-    "unmarked files of independent instructions, marked >100-line files, --lines runs, no --arch runs); a case is "
+    "unmarked files of independent instructions, marked >100-line files, --lines runs, no --arch runs, long unmarked file without --arch; on a private model zen1 + synthetic forms: partial-data forms and thirds next to 12/120-cycle cells); a case is "
     "non-trivial when its report has >=1 non-blank pressure cell or an X mark; distinct = digest(file text, options)"
 )
 ASSUMPTIONS = [
